@@ -69,6 +69,10 @@ type Conn struct {
 
 	Sched  *Sched  // optional gates
 	Server *Server // optional reactive server
+
+	// CloseErr, when set, is returned by the first Close although the connection
+	// does get closed (like a TLS connection failing to send close_notify).
+	CloseErr error
 }
 
 func NewConn() *Conn {
@@ -254,7 +258,7 @@ func (c *Conn) Close() error {
 	c.rmu.Lock()
 	c.signal()
 	c.rmu.Unlock()
-	return nil
+	return c.CloseErr
 }
 
 func (c *Conn) LocalAddr() net.Addr {
